@@ -66,7 +66,10 @@ func VpHSeq() {
 	}
 	key := []byte("k")
 	var seqs [2]*Sequence
-	for i := range seqs {
+	// either object may hold the most recent lease (Release only writes back when its own lease
+	// is the stored one)
+	first := vpChoose("created-first", 2)
+	for _, i := range []int{first, 1 - first} {
 		s, err := db.GetSequence(key, bws[i])
 		if err != nil {
 			// a failed GetSequence hands out an unusable object; the caller would retry
@@ -79,10 +82,7 @@ func VpHSeq() {
 	var last [2]uint64
 	var hasLast [2]bool
 	steps := vpParam("seq.steps", 4)
-	nops := 4
-	if vpParam("seq.conc", 1) == 1 {
-		nops = 6
-	}
+	nops := 4 + vpParam("seq.conc", 1) // 1: + Release(a)||Next(a); 2: + Next(a)||Next(a)
 	next := func(op int) {
 		n, err := seqs[op].Next()
 		if err != nil {
